@@ -53,6 +53,7 @@ const (
 	sigF16Alloc   = "F16:fd_renumber-host-allocation-proportional-to-target-fd"
 	sigF16Exhaust = "F16:fd_renumber-to-2^31-1-exhausts-host-memory"
 	sigF25        = "F25:poll_oneoff-sleeps-2^63-1ns-without-clock-subscription"
+	sigF61        = "F61:sock_recv-peek-writes-first-iovec-although-ri_data_len-is-0"
 	maxSaneSleep  = int64(1) << 62 // ~146 years
 )
 
@@ -228,7 +229,11 @@ func monitor(cs Case, o outcome, img []byte) []finding {
 		fs = append(fs, finding{"impl-violation", "C15:unexpected-exit:" + cs.Fn, fmt.Sprintf("%s(%s) exited the module", cs.Fn, fmtArgs(cs.Args)), nil})
 	}
 	if off, bad := outsideDesignated(r.Diff, designated(cs.Fn, cs.Args, img)); bad {
-		fs = append(fs, finding{"impl-violation", "C15:write-outside-designated:" + cs.Fn, fmt.Sprintf("%s(%s) [%s,%s] changed guest byte %d outside the output regions of its signature", cs.Fn, fmtArgs(cs.Args), cs.State, cs.Img, off), r.Diff})
+		sig := "C15:write-outside-designated:" + cs.Fn
+		if cs.Fn == "sock_recv" && u32(cs.Args[2]) == 0 && u32(cs.Args[3])&1 != 0 {
+			sig = sigF61
+		}
+		fs = append(fs, finding{"impl-violation", sig, fmt.Sprintf("%s(%s) [%s,%s] changed guest byte %d outside the output regions of its signature", cs.Fn, fmtArgs(cs.Args), cs.State, cs.Img, off), r.Diff})
 	}
 	if r.Alloc > heapLimit {
 		sig := "C15:host-allocation-out-of-proportion:" + cs.Fn
@@ -501,7 +506,11 @@ func compareDesignated(cs Case, img []byte) {
 func compareModel(cs Case, r *Result, img []byte) {
 	sendImage(cs.Img)
 	var sb strings.Builder
-	fmt.Fprintf(&sb, "c15 call %s %s %s", cs.Fn, cs.Img, tableKey(r.Before))
+	op := "call"
+	if cs.State == "dirread" {
+		op = "callr" // the dirent caches of the directory descriptors hold the complete listings
+	}
+	fmt.Fprintf(&sb, "c15 %s %s %s %s", op, cs.Fn, cs.Img, tableKey(r.Before))
 	for _, a := range cs.Args {
 		fmt.Fprintf(&sb, " %d", a)
 	}
@@ -749,6 +758,23 @@ func main() {
 			rep.Count("state-sock:skipped-no-loopback")
 			rep.Note("descriptor-table state `sock` skipped: cannot bind a loopback port (%v)", err)
 		}
+		if sockStateOK {
+			// finding switch F61: sock_recv with RI_RECV_PEEK and ri_data_len = 0
+			w := runAlone(Case{Fn: "sock_recv", Args: []uint64{4, 0, 0, 1, 0xffc0, 0x4140}, State: "sock", Img: "struct", Engine: "interpreter", Tag: "witness"})
+			v2 := "asis"
+			if w.res != nil && w.res.Err == "" {
+				v2 = "fixed"
+				for _, d := range w.res.Diff {
+					if d.Off == 256 {
+						v2 = "asis"
+					}
+				}
+			}
+			rep.Note("finding switch F61: sock_recv variant tied to the code = %s", v2)
+			if a := orc.Askf("c15 variant2 %s", v2); a != "ok" {
+				hx.Fatal("oracle variant2: %s", a)
+			}
+		}
 		for _, f := range specs {
 			if *onlyFn != "" && f.name != *onlyFn {
 				continue
@@ -825,6 +851,9 @@ func replayCases(path string) []Case {
 	}
 	if a := orc.Askf("c15 variant asis"); a != "ok" {
 		hx.Fatal("oracle variant: %s", a)
+	}
+	if a := orc.Askf("c15 variant2 asis"); a != "ok" {
+		hx.Fatal("oracle variant2: %s", a)
 	}
 	return cs
 }
